@@ -17,7 +17,9 @@ Total(e) == /\ e.res \in {"ok", "err"}
             /\ (e.res = "err" => e.diag_ok /\ e.spans_ok)
 Explains(e) ==
   /\ Total(e)
-  /\ (e.ev = "tok" => (e.res = "ok") = TokAccepts(e.toks))
+  /\ (e.ev = "tok" => LET r == TokResult(e.toks) IN
+                         /\ (e.res = "ok") = r.ok
+                         /\ (~r.ok => e.code = r.code))
 
 TOk  == /\ l <= NRec /\ Explains(Ev) /\ l' = l + 1 /\ UNCHANGED bad
 TBad == /\ l <= NRec /\ ~Explains(Ev) /\ bad' = bad \cup { << l, Ev.res >> } /\ l' = l + 1
